@@ -143,6 +143,10 @@ func (s *stream) blockGet() *Event {
 		s.cond.Wait()
 		s.streamer.resetBlocked(s)
 	}
+	// the stream isn't blocked anymore. The heartbeat may still hold it in the snapshot of blocked
+	// streams it took before: with the old block time its tryUnblock would find the stream "idle for
+	// too long" while this event is being processed (away event id != commit event id).
+	s.blockTime = time.Now()
 	event := s.get()
 	s.mu.Unlock()
 
